@@ -528,6 +528,33 @@ def gen_blocked_behind_case(rng, schema):
     return None
 
 
+def multi_text_insert(rng, schema, doc):
+    """(pos, [text, text, text, ...]): a position where text is allowed and a list of 3-4 adjacent text nodes with equal
+    marks (what `Transform.insert(pos, [nodes])` / `Fragment.from_array` have to join into one node); None if there is
+    no such position"""
+    text_t = schema.nodes.get("text")
+    if text_t is None:
+        return None
+    cands = []
+    for p in range(doc.content.size + 1):
+        try:
+            r = doc.resolve(p)
+        except Exception:  # noqa: BLE001
+            continue
+        if r.parent.inline_content and r.parent.type.content_match.match_type(text_t) is not None or \
+                (r.parent.is_textblock and r.text_offset > 0):
+            cands.append((p, r))
+    if not cands:
+        return None
+    p, r = rng.choice(cands)
+    try:
+        marks = [m for m in r.marks() if r.parent.type.allows_mark_type(m.type)]
+    except Exception:  # noqa: BLE001
+        marks = []
+    nodes = [schema.text(gen_text(rng, 1, 3, plain=True), marks) for _ in range(rng.randint(3, 4))]
+    return p, nodes
+
+
 def frag_boundaries(fragment):
     """positions in a fragment that are not inside text (between children, at content starts / ends)"""
     out = []
